@@ -264,7 +264,39 @@ def supply_modes(ctx, table, rnd, n):
     modgen.unload(m)
 
 
+def deep_pairs(ctx):
+    """scale boundary: pairs of very deep queries differing in one place (a constant at the bottom, the nesting of the last
+    lambda's calls). A RecursionError is not judged; when both hashes are returned they must differ."""
+    import ast
+
+    from func_adl.ast.ast_hash import calc_ast_hash
+
+    def chain(n, bottom, last):
+        q = astx.parse_expr(f"Select(ds, lambda e: {bottom})")
+        for i in range(n):
+            q = ast.Call(func=ast.Name(id="Select", ctx=ast.Load()), args=[q, astx.parse_expr(f"lambda v{i % 3}: v{i % 3}")], keywords=[])
+        return ast.Call(func=ast.Name(id="Select", ctx=ast.Load()), args=[q, astx.parse_expr(last)], keywords=[])
+
+    for n in (40, 150, 300, 450, 700):
+        for tag, a, b in [
+            ("constant-at-the-bottom", chain(n, "e.x + 1", "lambda z: z"), chain(n, "e.x + 2", "lambda z: z")),
+            ("nesting-of-the-last-lambda", chain(n, "e.x", "lambda e: g(f(e, f), e())"), chain(n, "e.x", "lambda e: g(f(e), f(e))")),
+            ("argument-order-in-the-middle", chain(n, "h(e.a, e.b)", "lambda z: z"), chain(n, "h(e.b, e.a)", "lambda z: z")),
+        ]:
+            ctx.case(f"deep-pair:{n}:{tag}", True)
+            try:
+                ha, hb = calc_ast_hash(a), calc_ast_hash(b)
+            except RecursionError:
+                ctx.count(f"deep-pair:{n}:RecursionError (not judged)")
+                continue
+            ctx.count(f"deep-pair:{n}:hashed")
+            if ha == hb:
+                ctx.violation("different-structure-same-hash:deep", f"two chains of {n} operators differing in {tag} hash the same ({ha})", {"deep": n, "tag": tag})
+
+
 def shard_main(ctx):
+    if ctx.shard in (0, 1, 3):
+        deep_pairs(ctx)
     if ctx.shard == 1 % ctx.nshards and ctx.tier == "thorough":
         from ..core import repo_tests_under_monitors
 
